@@ -3,8 +3,6 @@ source access; forked worker processes inherit these objects and the gate regist
 
 from __future__ import annotations
 
-import os
-import threading
 import time
 from typing import Any
 
@@ -13,8 +11,7 @@ from numpy import array
 from numpy import atleast_1d
 from numpy import eye
 
-from harness.c13_tasks import WAIT_S
-from harness.c13_tasks import GateTimeout
+from harness.c13_tasks import StopError
 
 # Gates are looked up through a module-level registry so that the objects holding a gate stay
 # picklable (the registry itself is inherited by forked workers).
@@ -39,9 +36,7 @@ def pass_gate(token: int | None, k: int) -> None:
     gate = REGISTRY.get(token)
     if gate is None:
         return
-    gate.started.put((k, os.getpid(), threading.get_ident()))
-    if not gate.release[k].wait(WAIT_S):
-        raise GateTimeout(k)
+    gate.pass_through(k)
 
 
 def vec_key(x) -> tuple:
@@ -53,7 +48,8 @@ class GatedAffine(Discipline):
 
     def __init__(self, name: str, a: float, b: float, out_name: str = "y", token: int | None = None,
                  key: int | None = None, key_of: dict[tuple, int] | None = None, fail_keys: tuple[int, ...] = (),
-                 sleep_of: dict[int, float] | None = None, counter: Any = None, gate_on: str = "run") -> None:
+                 sleep_of: dict[int, float] | None = None, counter: Any = None, gate_on: str = "run",
+                 stop_keys: tuple[int, ...] = ()) -> None:
         super().__init__(name=name)
         self.io.input_grammar.update_from_names(["x"])
         self.io.output_grammar.update_from_names([out_name])
@@ -68,6 +64,7 @@ class GatedAffine(Discipline):
         self.sleep_of = sleep_of
         self.counter = counter
         self.gate_on = gate_on
+        self.stop_keys = tuple(stop_keys)
 
     def _key(self, x) -> int | None:
         if self.key is not None:
@@ -90,6 +87,8 @@ class GatedAffine(Discipline):
         pass_gate(self.token, k)
         if self.sleep_of:
             time.sleep(self.sleep_of.get(k, 0.0))
+        if k in self.stop_keys:
+            raise StopError(k)
         if k in self.fail_keys:
             msg = f"task {k} fails"
             raise ValueError(msg)
@@ -163,3 +162,75 @@ class GatedVecFunction:
             pass_gate(self.token, k)
         return array([c0 + sum(c * v for c, v in zip(row, x)) + q * x[0] ** 2
                       for row, c0, q in zip(self.coef, self.c0, self.q)])
+
+
+class GatedQuad(Discipline):
+    """`y = a x**2 + b x + c` (scalar x) with Jacobian `2 a x + b`; two gates per task.
+
+    Task `k` (the position of the input value in `key_of`) reports at gate `k` inside `_run` (before the
+    outputs are returned, hence before they are cached) and at gate `n_tasks + k` inside
+    `_compute_jacobian` (before the Jacobian is cached).  `fail_run` / `fail_jac`: tasks raising
+    `ValueError` after the corresponding gate.  `n_runs` / `n_jacs`: shared counters of true computations.
+    """
+
+    def __init__(self, name: str, a: float, b: float, c: float, token: int | None = None,
+                 key_of: dict[tuple, int] | None = None, n_tasks: int = 0, fail_run: tuple[int, ...] = (),
+                 fail_jac: tuple[int, ...] = (), n_runs: Any = None, n_jacs: Any = None,
+                 stages: tuple[str, ...] = ("E", "J")) -> None:
+        super().__init__(name=name)
+        self.io.input_grammar.update_from_names(["x"])
+        self.io.output_grammar.update_from_names(["y"])
+        self.io.input_grammar.defaults["x"] = array([0.0])
+        self.a, self.b, self.c = a, b, c
+        self.token = token
+        self.key_of = key_of
+        self.n_tasks = n_tasks
+        self.fail_run = tuple(fail_run)
+        self.fail_jac = tuple(fail_jac)
+        self.n_runs = n_runs
+        self.n_jacs = n_jacs
+        self.stages = tuple(stages)
+
+    @staticmethod
+    def _bump(counter) -> None:
+        if counter is not None:
+            with counter.get_lock():
+                counter.value += 1
+
+    def _run(self, input_data):
+        x = input_data["x"]
+        self._bump(self.n_runs)
+        k = self.key_of.get(vec_key(x)) if self.key_of is not None else None
+        if k is not None:
+            if "E" in self.stages:
+                pass_gate(self.token, k)
+            if k in self.fail_run:
+                msg = f"task {k} fails in _run"
+                raise ValueError(msg)
+        return {"y": self.a * x * x + self.b * x + self.c}
+
+    def _compute_jacobian(self, input_names=(), output_names=()):
+        x = self.io.data["x"]
+        self._bump(self.n_jacs)
+        k = self.key_of.get(vec_key(x)) if self.key_of is not None else None
+        if k is not None:
+            if "J" in self.stages:
+                pass_gate(self.token, self.n_tasks + k)
+            if k in self.fail_jac:
+                msg = f"task {k} fails in _compute_jacobian"
+                raise ValueError(msg)
+        self.jac = {"y": {"x": array([[2.0 * self.a * float(x[0]) + self.b]])}}
+
+
+class ExecThenLin:
+    """Task callable: execute the discipline, then linearize it, at the given input (picklable)."""
+
+    def __init__(self, discipline: Discipline) -> None:
+        self.discipline = discipline
+
+    def __call__(self, inputs):
+        status = self.discipline.execution_status
+        if status.value == status.Status.FAILED:
+            status.value = status.Status.DONE
+        self.discipline.execute(inputs)
+        return self.discipline.linearize(inputs)
